@@ -84,7 +84,7 @@ def gen_norms(rng):
     sched['poison'] = rng.random() < 0.5
     return dict(kind='norms', P=g[0] * g[1], npts=npts, grid=g, uniform=rng.random() < 0.2,
                 eseed=rng.randrange(1 << 30), fseed=rng.randrange(1 << 30), one=rng.random() < 0.15,
-                root=rng.randrange(g[0] * g[1]), fix_axis=rng.randrange(4), sched=sched)
+                root=rng.randrange(g[0] * g[1]), fix_axis=rng.randrange(4), second_grid=rng.random() < 0.3, sched=sched)
 
 
 def gen_collector(rng):
@@ -146,6 +146,17 @@ def _replica_sum(results, key, name):
 
 def run_norms(case, tape):
     M = Multi(ID, tape)
+    _norms_world(M, case)
+    probes = {'kind_norms': 1}
+    if case.get('second_grid') and not M.failed():
+        # a second grid in the same process with the same sizes and end points but other interior points
+        # (another mesh grading, another spline degree): nothing computed for the first may be reused for it
+        _norms_world(M, dict(case, eseed=case['eseed'] + 101, fseed=case['fseed'] + 101, uniform=not case['uniform']))
+        probes['second_grid_same_ends'] = 1
+    return M.finish(extra=dict(nontrivial=case['P'] > 1, probes=probes))
+
+
+def _norms_world(M, case):
     P = case['P']
     g = case['grid']
     npts = case['npts']
@@ -222,8 +233,7 @@ def run_norms(case, tape):
         if case['root'] != 0:
             probes['drawing_rank_nonzero'] = 1
         return dict(probes=probes)
-    M.run(P, case['sched'], rank_fn, post)
-    return M.finish(extra=dict(nontrivial=P > 1, probes={'kind_norms': 1}))
+    return M.run(P, case['sched'], rank_fn, post)
 
 
 # ---------------------------------------------------------------------------
